@@ -1,5 +1,21 @@
 (* Model/TextCase.v — the correspondence term for C01 (evaluated by vm_compute on generated cases). *)
-From Boreal Require Import Base.Prelude Base.ListX Base.Bytes Model.Literals Model.AcScan Spec.TextSpec.
+From Boreal Require Import Base.Prelude Base.ListX Base.Bytes Base.Consts Model.Base64 Model.Literals Model.AcScan
+  Spec.TextSpec.
+
+(* base64 only — per-declaration validation: boreal's `encode_base64` of every plain form at the
+   three alignments is the declarative trimmed encoding (None when nothing survives).  Decidable, a
+   function of the declaration alone; hypothesis of C01_text_matches for base64 strings and evaluated
+   on every generated case. *)
+Definition opt_of_bytes (e : bytes) : option bytes := match e with [] => None | _ => Some e end.
+Definition b64_okb (d : tdecl) : bool :=
+  match t_b64 d with
+  | None => true
+  | Some b =>
+      let alphabet := match b_alpha b with Some a => a | None => BASE64_DEFAULT_ALPHABET end in
+      forallb (fun lit => forallb (fun off =>
+          opt_eqb bytes_eqb (encode_base64 lit (b_alpha b) off) (opt_of_bytes (spec_b64 alphabet lit off)))
+        [0; 1; 2]) (base_literals d)
+  end.
 
 (* specification side: what the reported list must be for declaration d on input m.
    Offsets: exactly spec_offsets (its first `lim` elements when there are more: on one contiguous
@@ -13,4 +29,4 @@ Definition C01_spec_ok (d : tdecl) (m : bytes) (prm : sparams) (out : list smatc
        && unxor_ok d m (sm_off x) (sm_len x) (sm_key x)) out.
 
 Definition C01_case (d : tdecl) (m : bytes) (prm : sparams) (out : list smatch) : bool * bool * N :=
-  (list_eqb smatch_eqb out (model_scan_text prm d m), C01_spec_ok d m prm out, 0).
+  (list_eqb smatch_eqb out (model_scan_text prm d m) && b64_okb d, C01_spec_ok d m prm out, 0).
